@@ -91,9 +91,19 @@ let line_of (l : string) : string =
         | M.NOr (a, b) -> "{ LEFT: " ^ show a ^ " or RIGHT: " ^ show b ^ " }"
         | M.NLic (l, p, x) -> string_of_str l ^ (if p then "+" else "") ^ (match x with Some y -> " with " ^ string_of_str y | None -> "")
         | M.NRef (d, r) -> (match d with Some y -> "DocumentRef-" ^ string_of_str y ^ ":" | None -> "") ^ "LicenseRef-" ^ string_of_str r in
-      (match M.parse t0 (str_of_string (unhex e)) with
-       | M.Ok t -> "P " ^ hex (show t)
-       | M.Err _ -> "P E" | M.Panic -> "P PANIC" | M.Fuel -> "P FUEL")
+      (* answered by the model of parseExpression AS WRITTEN (Model/ParseStack.v: stack of operand groups); the
+         recursive-descent model must give the same answer (Proofs/ParseStack.v: stack_equals_recursive) *)
+      let s = str_of_string (unhex e) in
+      let line = function
+        | M.Ok t -> "P " ^ hex (show t)
+        | M.Err _ -> "P E" | M.Panic -> "P PANIC" | M.Fuel -> "P FUEL" in
+      let recursive = line (M.parse t0 s) in
+      let as_written = (match s with
+        | [] -> recursive
+        | _ -> (match M.scan t0 s with
+                | M.Ok ts -> line (M.ps_tokens ts)
+                | M.Err _ -> "P E" | M.Panic -> "P PANIC" | M.Fuel -> "P FUEL")) in
+      if as_written = recursive then as_written else "P MODEL-SPLIT"
   | ["N"; i] ->  (* getLicenseRange() *)
       (match M.license_range t0 (str_of_string (unhex i)) with
        | Some (g, v) -> Printf.sprintf "N %d %d" (int_of_nat g) (int_of_nat v)
